@@ -5,5 +5,5 @@ D=$(mktemp -d /tmp/vxnat_XXXX)
 cp -r /repo/src /repo/examples /repo/Cargo.toml /repo/Cargo.lock $D/ && (cd $D && git init -q . && git apply $PATCH) || { echo "patch failed"; rm -rf $D; exit 9; }
 mkdir $D/replay && cp -r /verif/replay/src /verif/replay/Cargo.toml /verif/replay/Cargo.lock $D/replay/ 2>/dev/null
 sed -i "s|path = \"/repo\"|path = \"$D\"|" $D/replay/Cargo.toml
-(cd $D/replay && CARGO_NET_OFFLINE=true timeout 900 cargo run --offline --quiet --bin $BIN "$@" 2>&1 | grep -E "^VIOLATION|^OK|^error" -A3 | cut -c1-600; echo "exit ${PIPESTATUS[0]}")
+(cd $D/replay && CARGO_NET_OFFLINE=true timeout 900 cargo run --offline --quiet --bin $BIN "$@" 2>&1 | grep -E "^VIOLATION|^OK|^error|panicked" -A3 | cut -c1-600; echo "exit ${PIPESTATUS[0]}")
 rm -rf $D
